@@ -764,8 +764,8 @@ def run_metrics(ctx, model, scico):
         if impl[0] == "ok" and not np.isfinite(impl[1]):
             ctx.count("metric:non-finite value (" + ("nan" if np.isnan(impl[1]) else ("+inf" if impl[1] > 0 else "-inf")) + ")")
         _check(ctx, "metric." + name, case, impl, mod, formula)
-    # every metric on block arrays: the documented formula on the concatenation of the blocks.  On the current tree all
-    # but rel_res raise TypeError (snp.mean / var / max / min are not block reductions): known finding `metric-blockarray`
+    # every metric on block arrays: the documented formula on the concatenation of the blocks (before 200a606 all but
+    # rel_res raised TypeError: snp.mean / var / max / min are not block reductions - finding metric-blockarray, repaired)
     for _ in range(ctx.n(35, 350)):
         name = names[int(rng.integers(len(names)))]
         if name == "rel_res":
@@ -787,11 +787,7 @@ def run_metrics(ctx, model, scico):
                 "b": fs2b(G.il(fl(bb), cplx)), "c": fs2b(G.il(fl(cb), cplx))}
         ctx.case({k: case[k] for k in ("metric", "block", "cplx")}, ("metric-block", name, cplx, len(shape)))
         ctx.count(f"metric:{name}:block:" + ("value" if impl[0] == "ok" else "err-" + impl[1]))
-        if impl == ("err", "type"):
-            ctx.disagree("metric.block." + name, case, list(impl), list(mod), known_id="metric-blockarray",
-                         oracle=lambda _c, name=name: {"what": f"metric.{name} raises TypeError on BlockArray arguments (annotated Union[Array, BlockArray])"})
-        else:
-            _check(ctx, "metric.block." + name, case, impl, mod, formula)
+        _check(ctx, "metric.block." + name, case, impl, mod, formula)
     # rel_res on block arrays (the only metric whose reductions are block-aware)
     for _ in range(ctx.n(15, 150)):
         shape = G.random_shape(rng, True)
@@ -853,15 +849,19 @@ def correspond(ctx, model):
 
 
 def findings(ctx, model):
-    """known finding `metric-blockarray`: metric.mse(BlockArray, BlockArray) raises TypeError (still fails = True)"""
+    """no `known:` entry for C09.  Witness of the repaired finding metric-blockarray (200a606) as a regression case:
+    metric.mse(blockarray([[1,2],[[3]]]), blockarray([[1.5,2],[[2]]])) = (0.25 + 0 + 1)/3"""
     scico = common.setup_scico()
     import scico.numpy as snp
     from scico import metric
 
     a = snp.blockarray([snp.array(np.array([1.0, 2.0])), snp.array(np.array([[3.0]]))])
     b = snp.blockarray([snp.array(np.array([1.5, 2.0])), snp.array(np.array([[2.0]]))])
-    r = _impl(lambda: float(metric.mse(a, b)))
-    ctx.known_finding("metric-blockarray", r == ("err", "type"))
+    impl = _impl(lambda: float(metric.mse(a, b)))
+    mod = _model(model, "metric", name="mse", cplx=False, a=fs2b([1.0, 2.0, 3.0]), b=fs2b([1.5, 2.0, 2.0]))
+    ctx.case({"regression": "metric-blockarray"}, ("regression", "metric-blockarray"))
+    _check(ctx, "metric.block.mse", {"regression": "metric-blockarray"}, impl, mod, 1.25 / 3)
+    ctx.known_finding("metric-blockarray", False)
 
 
 def replay(ctx, model, case):
